@@ -24,6 +24,7 @@ def run(ctx):
     rd = ReachingDefs(cfg)
     leg, vs = r141(ctx)
     r145(ctx)
+    r146(ctx)
     from . import c08
     c08.r85(ctx)
 
@@ -217,3 +218,18 @@ def r145(ctx, rule='R14.5'):
         ok = len(mx) == 1 and p[mx[0]] == -1 and c1 + c2 == 8
         d = 'start=%s with sizes = F%+d: reaches back max(F)%+d bytes (need max(F)+8)' % (norm(st) if st is not None else '?', c1, c1 + c2)
     ctx.ob(rule, 'util.metadata_from_many:re-fetch-reaches-back-footer+8', ok, d, ut.loc(cats[0]) if cats else ut.loc(f))
+
+
+def r146(ctx, rule='R14.6'):
+    """metadata_from_many: every relative path cut off the common base (`x[len(basepath):]`) has its leading slash
+    stripped - paths_to_cats counts directory levels, and one path with a leading slash makes the depths differ"""
+    ut = ctx.repo['util']
+    f = ut.func('metadata_from_many')
+    n = 0
+    for x in walk_no_nested(f):
+        if isinstance(x, ast.Subscript) and isinstance(x.slice, ast.Slice) and x.slice.lower is not None and norm(x.slice.lower) == 'len(basepath)':
+            n += 1
+            par = [c for c in walk_no_nested(f) if isinstance(c, ast.Call) and isinstance(c.func, ast.Attribute) and c.func.value is x]
+            ok = any(c.func.attr == 'lstrip' and c.args and isinstance(c.args[0], ast.Constant) and c.args[0].value == '/' for c in par)
+            ctx.ob(rule, 'util.metadata_from_many:relative-path-without-leading-slash:%s' % norm(x)[:30], ok, norm(x), ut.loc(x))
+    ctx.floor(rule, 'relative path computations', n, 2)
